@@ -312,7 +312,7 @@ fn has_nan_or_inf(v: &V) -> bool {
 impl Prop for C02 {
     fn cases(&self, tier: Tier) -> u64 {
         match tier {
-            Tier::Quick => 300_000,
+            Tier::Quick => 900_000,
             Tier::Thorough => 12_000_000,
         }
     }
